@@ -1025,6 +1025,14 @@ def _shared_default(prog):
     return shared_default(prog, ["entity_query_language.symbolic", "entity_query_language.entity", "entity_query_language.hashed_data", "entity_query_language.conclusion_selector", "entity_query_language.rule", "entity_query_language.conclusion"], 150)
 
 
+def _sg_coherence(prog):
+    # every evaluate() starts with a sweep of the symbol graph: what it removes from the per-class lists must be the dead wrapper itself -
+    # a live instance (inferred by a rule evaluation that is still open) that sits at a recycled address must not go with it
+    from .c14 import sg_coherence
+
+    return sg_coherence(prog)
+
+
 def _node_flag(prog):
     # two evaluations of one query consumed in an interleaving share the nodes: an answer repeated from a node flag is the other evaluation's
     from .c02 import node_flag
@@ -1034,4 +1042,4 @@ def _node_flag(prog):
 
 def run(prog: Program, tier: str) -> List[RuleResult]:
     c1 = carry1(prog)
-    return [c1, guard(lambda: carry2(prog)), guard(lambda: ep_handshake(prog)), guard(lambda: domain_cache(prog)), guard(lambda: reset_with_evaluation(prog)), guard(lambda: carry_shared(prog, c1)), guard(lambda: carry_abandon(prog)), guard(lambda: carry_memo_up(prog)), guard(lambda: shared_tree(prog)), guard(lambda: carry_reset_reach(prog)), guard(lambda: carry_eval_parent(prog)), guard(lambda: _shared_default(prog)), guard(lambda: live_iter(prog)), guard(lambda: cache_private(prog)), guard(lambda: _node_flag(prog))]
+    return [c1, guard(lambda: carry2(prog)), guard(lambda: ep_handshake(prog)), guard(lambda: domain_cache(prog)), guard(lambda: reset_with_evaluation(prog)), guard(lambda: carry_shared(prog, c1)), guard(lambda: carry_abandon(prog)), guard(lambda: carry_memo_up(prog)), guard(lambda: shared_tree(prog)), guard(lambda: carry_reset_reach(prog)), guard(lambda: carry_eval_parent(prog)), guard(lambda: _shared_default(prog)), guard(lambda: live_iter(prog)), guard(lambda: cache_private(prog)), guard(lambda: _node_flag(prog)), guard(lambda: _sg_coherence(prog))]
